@@ -71,4 +71,81 @@ theorem c02f_wLevelOK : c02f_LevelOK c02f_wL c02f_wT := by
   have h5 : min n1 n2 * 4 ≤ 16 * 4 := Nat.mul_le_mul_right _ h3
   omega
 
+
+/-! ### a concrete program: x0·x1 − x0 on two fresh BFV ciphertexts (Δ = ⌊Q/t⌋ = 124439, messages (1,2,0,−1), (3,−2,1,0), errors (1,0,−1,0),
+      (0,1,0,−1), secret (1,−1,0,1)); invariant noises t·e − (Q mod t)·m = (7,−20,−17,10), (−30,37,−10,−17) -/
+
+def c02f_wSk : Array Int := #[1, -1, 0, 1]
+def c02f_wCt0 : Ct := ⟨#[#[#[21, 18, 62, 81], #[59, 94, 78, 43], #[180, 143, 158, 115]], #[#[5, 40, 77, 3], #[5, 40, 77, 3], #[5, 40, 77, 3]]], false, 1⟩
+def c02f_wCt1 : Ct := ⟨#[#[#[19, 9, 57, 45], #[52, 30, 95, 77], #[109, 174, 23, 44]], #[#[90, 11, 2, 60], #[90, 11, 2, 60], #[90, 11, 2, 60]]], false, 1⟩
+def c02f_wCts (i : Nat) : Ct := if i = 0 then c02f_wCt0 else c02f_wCt1
+def c02f_wM (i j : Nat) : Int := if i = 0 then (#[1, 2, 0, -1] : Array Int).getD j 0 else (#[3, -2, 1, 0] : Array Int).getD j 0
+def c02f_wNu (i j : Nat) : Int := if i = 0 then (#[7, -20, -17, 10] : Array Int).getD j 0 else (#[-30, 37, -10, -17] : Array Int).getD j 0
+def c02f_wProg : FProg := .sub (.mul (.inp 0) (.inp 1)) (.inp 0)
+
+theorem c02f_wFacts : c02f_wL.n = 4 ∧ c02f_wL.t.value = 17 ∧ c02f_wL.scheme = .bfv := by
+  obtain ⟨_, _, _, _, a5, a6, _, _, a9⟩ := mkLevel_ok c01w_pl_ok_bfv
+  exact ⟨a6, a9, a5⟩
+
+theorem c02f_wQ : c02f_wL.tool.baseQ.prod = 2115473 := by decide +kernel
+
+theorem c02f_wCanon (i : Nat) : CtCanon c02f_wL (c02f_wCts i) := by
+  have hc : ∀ p ∈ [c02f_wCt0.polys.getD 0 #[], c02f_wCt0.polys.getD 1 #[], c02f_wCt1.polys.getD 0 #[], c02f_wCt1.polys.getD 1 #[]],
+      RnsCanon c02f_wL p := by
+    intro p hp
+    simp only [List.mem_cons, List.mem_nil_iff, or_false] at hp
+    rcases hp with rfl | rfl | rfl | rfl <;> (unfold RnsCanon; decide +kernel)
+  have hcf : c02v_cfOk c02f_wL 1 := by
+    unfold c02v_cfOk
+    rw [c02f_wFacts.2.2]
+  unfold c02f_wCts
+  split
+  · refine ⟨⟨Nat.le_refl 2, (by decide : 2 ≤ 16), fun k hk => ?_⟩, hcf⟩
+    have hk' : k < 2 := hk
+    interval_cases k
+    · exact hc _ (by simp)
+    · exact hc _ (by simp)
+  · refine ⟨⟨Nat.le_refl 2, (by decide : 2 ≤ 16), fun k hk => ?_⟩, hcf⟩
+    have hk' : k < 2 := hk
+    interval_cases k
+    · exact hc _ (by simp)
+    · exact hc _ (by simp)
+
+theorem c02f_wSplit : ∀ i, i < 2 → ∀ j, j < 4 →
+    17 * c02f_ph c02f_wL c02f_wSk (c02f_wCts i) j = 2115473 * c02f_wM i j + c02f_wNu i j := by decide +kernel
+
+theorem c02f_wEnc (i : Nat) (hi : i < 2) : c02f_Enc c02f_wL c02f_wSk (c02f_wCts i) (c02f_wM i) 37 ∧ (c02f_wCts i).polys.size = 2 := by
+  refine ⟨c02f_enc_of_split c02f_wLevelOK (c02f_wCanon i) (by interval_cases i <;> rfl) (c02f_wM i) (c02f_wNu i) 37
+    (fun j hj => by
+      rw [c02f_wFacts.1] at hj
+      rw [c02f_wFacts.2.1, c02f_wQ]
+      exact c02f_wSplit i hi j hj)
+    (fun j hj => by rw [c02f_wFacts.1] at hj; revert i j; decide)
+    (by rw [c02f_wQ]; decide), by interval_cases i <;> rfl⟩
+
+def c02f_wR : Ct := (c02f_wProg.eval c02f_wL c02f_wT c02f_wCts).toOption.getD default
+theorem c02f_wEval : c02f_wProg.eval c02f_wL c02f_wT c02f_wCts = .ok c02f_wR := nv_ok_of_isOk default (by decide +kernel)
+theorem c02f_wR_val : (c02f_wR.polys.size, c02f_wR.ntt, c02f_wR.cf) = (3, false, 1) := by decide +kernel
+
+/-- the a-priori bookkeeping: BEHZ product bound 10949 (= `c02x_F 4 17 3 3 2 2 37 37 / 2^34`), plus 37 for the subtraction; every node below Q/2 -/
+theorem c02f_wUB : c02f_wProg.noiseUB 4 17 3 2115473 3 (fun _ => (2, 37)) = some (3, 10986) := by decide +kernel
+
+/-- NON-VACUITY of `hom_program_bfv_partial`: all hypotheses hold for the concrete program on the constructor-built level -/
+theorem hom_program_bfv_example :
+    bfvDecrypt c02f_wL c02f_wSk c02f_wR =
+      .ok (Spec.trim (Array.ofFn (n := c02f_wL.n) fun j => Spec.imod (c02f_wProg.shadow c02f_wL.n c02f_wM j.val) c02f_wL.t.value)) :=
+  hom_program_bfv_partial c02f_wLevelOK (sk := c02f_wSk) (by rw [c02f_wFacts.1]; rfl) (S := 3) (by rw [c02f_wFacts.1]; decide)
+    c02f_wCts c02f_wM (fun _ => (2, 37)) c02f_wProg
+    (fun i hi => by
+      have hi2 : i < 2 := by
+        simp [c02f_wProg, FProg.ctInputs] at hi
+        omega
+      exact c02f_wEnc i hi2)
+    c02f_wEval (s := 3) (V := 10986)
+    (by rw [c02f_wFacts.1, c02f_wFacts.2.1, c02f_wQ, show c02f_wL.size = 3 by decide +kernel]; exact c02f_wUB)
+    (by rw [c02f_wQ, show c02f_wL.size = 3 by decide +kernel, show c02f_wL.tool.gamma.value = 2305843009213693561 by decide +kernel]; decide)
+
+/-- … evaluated: (m0·m1 − m0) mod (X^4 + 1, 17) = (0, 3, 14, 0), trimmed -/
+theorem hom_program_bfv_example_val : (bfvDecrypt c02f_wL c02f_wSk c02f_wR).toOption = some #[0, 3, 14] := by decide +kernel
+
 end HC
